@@ -113,7 +113,7 @@ def tla_value(v):
 
 
 def run_tlc(module, cfg, workers=16, env=None, simulate=None, depth=None, coverage=False,
-            timeout=1800, seed=None, extra=(), heap="4g", dfs_queue=False, name=None):
+            timeout=600, seed=None, extra=(), heap="4g", dfs_queue=False, name=None):
     """Run TLC on spec/<module>.tla with the given cfg text (or path). Returns TLCResult.
 
     Raises MachineryError when TLC itself failed (parse error, evaluation error, crash, timeout)."""
